@@ -938,13 +938,6 @@ theorem batchResponses_append (cfg : Config) (env : Env) (tbl : Table) (a b : Li
 
 /-! ### transports -/
 
-theorem ws_pairing (cfg : Config) (env : Env) (tbl : Table) (msgs : List Input) :
-    Forall₂ (fun m r => (handleInput cfg env tbl m).body = some r)
-      (msgs.filter (fun m => (handleInput cfg env tbl m).body.isSome))
-      (wsWire (wsSession cfg env tbl msgs)) := by
-  have := forall₂_filter_filterMap (fun m => (handleInput cfg env tbl m).body) msgs
-  simpa [wsWire, wsSession, List.filterMap_map, Function.comp_def] using this
-
 /-! ### positional vs named without an optional tail -/
 
 end Juno.C11
